@@ -69,6 +69,8 @@ struct Conn {
     closed: bool,
     /// the control layer's per-connection list of owned subscription ids
     owned: Vec<String>,
+    /// this connection's own handle of the hub (the control socket gives every connection a clone)
+    hub: SubscriptionHub,
 }
 
 struct Sub {
@@ -127,7 +129,7 @@ fn check_in_runtime(case: &Case, obs: &mut Obs) -> CheckResult {
         .map(|c| {
             let cap = CAPS[*c as usize % CAPS.len()];
             let (tx, rx) = mpsc::channel::<String>(cap);
-            Conn { tx, rx: Some(rx), cap, queued: 0, closed: false, owned: Vec::new() }
+            Conn { tx, rx: Some(rx), cap, queued: 0, closed: false, owned: Vec::new(), hub: hub.clone() }
         })
         .collect();
     let mut subs: Vec<Sub> = Vec::new();
@@ -192,7 +194,8 @@ fn check_in_runtime(case: &Case, obs: &mut Obs) -> CheckResult {
             Op::Subscribe(c, t) => {
                 let ci = idx(*c, conns.len());
                 let topic = *t as usize;
-                let id = block_on_simple(hub.subscribe(TOPICS[topic], conns[ci].tx.clone()));
+                // through the connection's own clone of the hub
+                let id = block_on_simple(conns[ci].hub.subscribe(TOPICS[topic], conns[ci].tx.clone()));
                 vensure!(subs.iter().all(|s| s.id != id), "subscription-id-reused", "op {oi}: subscription id {id} handed out twice");
                 subs.push(Sub { id, conn: ci, topic, unsubscribed: false, unsub_at: None, last_seen: vec![None; np], pruned_possible: false });
             }
@@ -222,8 +225,8 @@ fn check_in_runtime(case: &Case, obs: &mut Obs) -> CheckResult {
                 let topic = *t as usize;
                 let line = format!(r#"{{"jsonrpc":"2.0","id":{oi},"method":"subscribe","params":{{"topic":"{}"}}}}"#, TOPICS[topic]);
                 let resp = {
-                    let Conn { tx, owned, .. } = &mut conns[ci];
-                    let mut sctx = srtla_send::control::SubscriptionContext { hub: &hub, push_tx: tx.clone(), owned_ids: owned };
+                    let Conn { tx, owned, hub: own, .. } = &mut conns[ci];
+                    let mut sctx = srtla_send::control::SubscriptionContext { hub: own, push_tx: tx.clone(), owned_ids: owned };
                     block_on_simple(srtla_send::control::dispatch_async(&ctl_cfg, Some(&ctl_stats), Some(&ctl_cw), Some(&mut sctx), &line))
                 };
                 let v: Value = resp.map(|r| serde_json::from_str(&r.to_json()).unwrap_or(Value::Null)).unwrap_or(Value::Null);
@@ -568,6 +571,85 @@ fn unsubscribe_race(ctx: &Ctx, rounds: usize) {
     }
 }
 
+/// Publication order as a socket client sees it: a subscription made over the real control socket, then bursts of
+/// events published back to back (several are queued on the connection when its writer runs); the lines must
+/// arrive in publication order, each once, tagged with the subscription's id.
+fn socket_push_order(ctx: &Ctx, bursts: usize) {
+    use std::io::{BufRead, BufReader, Write};
+    if ctx.failed() {
+        return;
+    }
+    let Ok(rt) = tokio::runtime::Builder::new_multi_thread().worker_threads(1).enable_all().build() else { return };
+    let dir = crate::rt::verif_dir().join("harness").join("target");
+    let _ = std::fs::create_dir_all(&dir);
+    let path = dir.join(format!("c20-{}.sock", std::process::id()));
+    let _ = std::fs::remove_file(&path);
+    let hub = SubscriptionHub::new();
+    {
+        let (p, h) = (path.to_str().unwrap_or_default().to_string(), hub.clone());
+        rt.spawn(async move {
+            let _ = srtla_send::control_socket::spawn(p, srtla_send::config::DynamicConfig::new(), srtla_send::stats::SharedStats::new(), srtla_core::priority::CriticalWindow::new(), h).await;
+        });
+    }
+    let mut stream = None;
+    for _ in 0..500 {
+        if let Ok(s) = std::os::unix::net::UnixStream::connect(&path) {
+            stream = Some(s);
+            break;
+        }
+        std::thread::sleep(std::time::Duration::from_millis(10));
+    }
+    let Some(mut stream) = stream else {
+        ctx.extra("socket_push_order", json!({"skipped": "the control socket did not come up"}));
+        return;
+    };
+    let _ = stream.set_read_timeout(Some(std::time::Duration::from_secs(5)));
+    let _ = stream.write_all(b"{\"jsonrpc\":\"2.0\",\"id\":1,\"method\":\"subscribe\",\"params\":{\"topic\":\"priority.window\"}}\n");
+    let mut r = BufReader::new(stream);
+    let mut l = String::new();
+    let _ = r.read_line(&mut l);
+    let sid = serde_json::from_str::<Value>(&l).ok().and_then(|v| v["result"]["subscription_id"].as_str().map(String::from)).unwrap_or_default();
+    let mut next = 0u64;
+    let mut bad: Option<String> = None;
+    let mut seen = 0u64;
+    'outer: for b in 0..bursts {
+        let k = [1usize, 2, 6, 20, 3][b % 5];
+        let first = next;
+        rt.block_on(async {
+            for _ in 0..k {
+                hub.publish("priority.window", json!({"n": next})).await;
+                next += 1;
+            }
+        });
+        // delivery itself is not promised (a full channel drops): gaps are accepted, order and tags are not negotiable
+        let mut last_n: Option<u64> = None;
+        loop {
+            if last_n == Some(next - 1) {
+                break;
+            }
+            l.clear();
+            if !r.read_line(&mut l).is_ok_and(|n| n > 0) {
+                break; // nothing more within 5 s: the rest was dropped (counted as not seen)
+            }
+            let v: Value = serde_json::from_str(&l).unwrap_or(Value::Null);
+            let n = v["params"]["data"]["n"].as_u64();
+            let ok = n.is_some_and(|n| n >= first && n < next && last_n.is_none_or(|p| n > p)) && v["params"]["subscription_id"].as_str() == Some(sid.as_str());
+            if !ok {
+                bad = Some(format!("burst of {k} events published back to back ({first}..{}): the socket client read event {:?} (subscription {}) after event {:?}; publication order, own id {sid}", next - 1, n, v["params"]["subscription_id"], last_n));
+                break 'outer;
+            }
+            last_n = n;
+            seen += 1;
+        }
+    }
+    let _ = std::fs::remove_file(&path);
+    ctx.extra("socket_push_order", json!({"bursts": bursts, "events_read_in_order": seen}));
+    if let Some(msg) = bad {
+        ctx.report_violation("socket-push-order", &crate::rt::Violation { sig: "socket-events-out-of-order".into(), msg }, json!({"stress": false}));
+    }
+    rt.shutdown_background();
+}
+
 pub fn run(ctx: &Ctx) -> &'static str {
     ctx.assume("hub futures are polled by hand with a no-op waker: a publish must become Ready within 3 polls while nothing else runs, so waiting on a full or closed subscriber shows up as a pending future");
     ctx.assume("no task suspends while holding the hub lock, so on one thread interleavings at await points are interleavings of whole operations; lock contention between OS threads is only sampled by the real-thread tier (thorough)");
@@ -576,6 +658,8 @@ pub fn run(ctx: &Ctx) -> &'static str {
         if !ctx.replay_case::<Case, _>("interleavings", &file, &body, check) {
             if body["part"].as_str() == Some("unsubscribe-race") {
                 unsubscribe_race(ctx, 5_000);
+            } else if body["part"].as_str() == Some("socket-push-order") {
+                socket_push_order(ctx, 200);
             } else {
                 eprintln!("replay {}: unknown part", file.display());
             }
@@ -595,6 +679,7 @@ pub fn run(ctx: &Ctx) -> &'static str {
     if ctx.tier == Tier::Thorough && !ctx.failed() {
         real_threads(ctx, 6);
     }
+    socket_push_order(ctx, ctx.tier.pick(40, 600));
     unsubscribe_race(ctx, ctx.tier.pick(800, 20_000));
     crate::props::e2e::run(ctx, crate::props::e2e::Phase::Subscription, ctx.tier.pick(1, 2));
     "exploration"
